@@ -53,6 +53,10 @@ type hooks struct {
 	fromOther bool     // call Cancel from another goroutine (joined before the built-in returns)
 	onTick    func()
 	extraPre  starlark.StringDict
+	// at the k-th effect the host sets a new limit: current steps + budgetDelta
+	budgetAt    int
+	budgetDelta uint64
+	onMaxSteps  func(*starlark.Thread)
 }
 
 func runOn(thread *starlark.Thread, p gen.Program, limit uint64, h hooks) runResult {
@@ -67,6 +71,9 @@ func runOn(thread *starlark.Thread, p gen.Program, limit uint64, h hooks) runRes
 	tr.OnEvent = func(t *starlark.Thread, ev string) {
 		res.events = append(res.events, stamped{ev, t.ExecutionSteps(), t.CallStackDepth()})
 		n++
+		if h.budgetAt > 0 && n == h.budgetAt {
+			t.SetMaxExecutionSteps(t.ExecutionSteps() + h.budgetDelta)
+		}
 		if h.cancelAt > 0 && n == h.cancelAt {
 			if h.fromOther {
 				var wg sync.WaitGroup
@@ -90,6 +97,9 @@ func runOn(thread *starlark.Thread, p gen.Program, limit uint64, h hooks) runRes
 	}
 	if limit > 0 {
 		th.SetMaxExecutionSteps(limit)
+	}
+	if h.onMaxSteps != nil {
+		th.OnMaxSteps = h.onMaxSteps
 	}
 	before := th.ExecutionSteps()
 	_, err := starlark.ExecFileOptions(p.Opts.FileOptions(), th, "prog.star", p.Src, pre)
@@ -524,6 +534,100 @@ func TestPropCancel(t *testing.T) {
 			c.LimitDelta = 1 + vk.Uniform(t, 4)
 		}
 		return c
+	})
+}
+
+// ---------------------------------------------------------------- (c2) the limit is set or changed while the program runs; OnMaxSteps hook
+
+type BudgetCase struct {
+	Prog  gen.Program `json:"prog"`
+	K     int         `json:"k"`     // permille position among baseline effects
+	Delta uint64      `json:"delta"` // steps granted from that point
+	Hook  bool        `json:"hook"`  // use Thread.OnMaxSteps (which cancels) instead of the default action
+}
+
+func checkBudget(c BudgetCase) error {
+	base := runOn(nil, c.Prog, baselineCap, hooks{})
+	if isCancelled(base.err, "too many steps") || len(base.events) == 0 {
+		vk.S.Discard()
+		return nil
+	}
+	S := base.steps
+	k := 1 + c.K*len(base.events)/1000
+	if k > len(base.events) {
+		k = len(base.events)
+	}
+	N := base.events[k-1].step + c.Delta // the limit in force from effect k on
+	h := hooks{budgetAt: k, budgetDelta: c.Delta}
+	reason := "too many steps"
+	hookCalls := 0
+	if c.Hook {
+		reason = "hook-limit"
+		h.onMaxSteps = func(t *starlark.Thread) { hookCalls++; t.Cancel("hook-limit") }
+	}
+	th := &starlark.Thread{Name: "budget"}
+	r := runOn(th, c.Prog, 0, h)
+	key := fmt.Sprintf("limit %d set at effect %d (step %d) of a program of %d steps, hook=%v", N, k, base.events[k-1].step, S, c.Hook)
+	var want []string
+	for _, e := range base.events {
+		if e.step < N {
+			want = append(want, e.ev)
+		}
+	}
+	got := evs(r.events)
+	if N <= S {
+		if !isCancelled(r.err, reason) {
+			return fmt.Errorf("%s: expected cancellation (%s), got %v after %d steps", key, reason, r.err, r.steps)
+		}
+		if r.steps > N {
+			return fmt.Errorf("%s: ExecutionSteps()=%d exceeds the limit", key, r.steps)
+		}
+	} else if isCancelled(r.err, "") {
+		return fmt.Errorf("%s: cancelled although the limit was not reached: %v", key, r.err)
+	}
+	if len(got) != len(want) {
+		return fmt.Errorf("%s: %d effects performed, expected exactly the %d baseline effects stamped below the limit (last: %v)", key, len(got), len(want), tail(got))
+	}
+	for i := range got {
+		if got[i] != want[i] {
+			return fmt.Errorf("%s: effect %d is %q, expected %q", key, i, got[i], want[i])
+		}
+	}
+	if N <= S {
+		// The thread has used up its budget: after Uncancel (the counter is not reset) any further execution
+		// must be stopped again at once, with the hook or without.
+		th.Uncancel()
+		r2 := runOn(th, c.Prog, 0, hooks{})
+		if !isCancelled(r2.err, reason) || len(r2.events) != 0 {
+			return fmt.Errorf("%s: re-execution on the exhausted thread after Uncancel: err=%v, %d effects (expected immediate cancellation)", key, r2.err, len(r2.events))
+		}
+		// A lower limit set on a thread that is already beyond it stops it as well.
+		th.Uncancel()
+		th.SetMaxExecutionSteps(th.ExecutionSteps() / 2)
+		r3 := runOn(th, c.Prog, 0, hooks{})
+		if !isCancelled(r3.err, reason) || len(r3.events) != 0 {
+			return fmt.Errorf("%s: execution on a thread already beyond a newly set limit: err=%v, %d effects (expected immediate cancellation)", key, r3.err, len(r3.events))
+		}
+		// and with the limit lifted it runs normally
+		th.Uncancel()
+		th.SetMaxExecutionSteps(^uint64(0))
+		r4 := runOn(th, c.Prog, 0, hooks{})
+		if (r4.err != nil) != (base.err != nil) || len(r4.events) != len(base.events) || isCancelled(r4.err, "") {
+			return fmt.Errorf("%s: after lifting the limit the run differs from the baseline: err=%v, %d effects", key, r4.err, len(r4.events))
+		}
+	}
+	vk.S.Class(fmt.Sprintf("budget:hook=%v,hit=%v", c.Hook, N <= S))
+	if N <= S && base.events[k-1].depth >= 2 {
+		vk.S.NonTrivial(c.Prog.Src + key)
+	}
+	return nil
+}
+
+var subBudget = vk.Register("budget-midrun", checkBudget)
+
+func TestPropBudget(t *testing.T) {
+	vk.Rapid(t, subBudget, vk.N(500, 5000), func(t *rapid.T) BudgetCase {
+		return BudgetCase{Prog: genProg(t), K: vk.Uniform(t, 1000), Delta: uint64([]int{1, 2, 3, 5, 10, 30, 100, 1000}[vk.Uniform(t, 8)]), Hook: vk.Chance(t, 0.5)}
 	})
 }
 
